@@ -11,5 +11,5 @@ while IFS="$(printf '\t')" read -r patch prop expect; do
   out=$(GOVC_ROOT="$tmp/.verif" sh -c "mkdir -p $tmp/.verif && cp ../props.json ../known_findings.jsonl ../undecided.jsonl $tmp/.verif/ && ../bin/govc check -p $prop -repo $tmp" 2>&1)
   if echo "$out" | grep "^FAILED" | grep -qF "$expect"; then echo "SELFTEST $patch: detected ($prop, $expect)"; else echo "SELFTEST $patch: MISSED ($prop, expected $expect)"; echo "$out" | tail -3; fail=1; fi
   rm -rf "$tmp"
-done < expected.tsv
+done < "${1:-expected.tsv}"
 exit $fail
